@@ -67,6 +67,11 @@ type CallSpec struct {
 	// TCP RST ("reset": SO_LINGER 0 + close) or answers with bytes that fail ParsePackage ("garbage"),
 	// whatever else is in flight on that connection, and keeps serving new connections.
 	Trigger string `json:"trigger,omitempty"`
+	// LoopMs > 0: the caller goroutine repeats the call back to back (alternating one-way and two-way
+	// requests, at most LoopMax times) until LoopMs have passed since it started: a steady flow of writes.
+	LoopMs    int `json:"loop_ms,omitempty"`
+	LoopMax   int `json:"loop_max,omitempty"`
+	LoopGapUs int `json:"loop_gap_us,omitempty"` // pause between two calls of the loop
 }
 
 type ClientConf struct {
@@ -744,7 +749,11 @@ func (r *runner) counters(wave int) {
 }
 
 func (r *runner) oneCall(specIdx int, cs CallSpec, done chan<- struct{}) {
-	defer func() { done <- struct{}{} }()
+	defer func() {
+		if done != nil {
+			done <- struct{}{}
+		}
+	}()
 	p := r.prxs[cs.Proxy%len(r.prxs)]
 	r.mu.Lock()
 	i := r.nB
@@ -924,6 +933,19 @@ func RunChild(sc *Scenario) *Result {
 			go func(si int, c CallSpec) {
 				if d := time.Until(waveStart.Add(time.Duration(c.DelayMs) * time.Millisecond)); d > 0 {
 					time.Sleep(d)
+				}
+				if c.LoopMs > 0 {
+					end := time.Now().Add(time.Duration(c.LoopMs) * time.Millisecond)
+					for k := 0; (k == 0 || time.Now().Before(end)) && (c.LoopMax <= 0 || k < c.LoopMax); k++ {
+						cc := c
+						cc.Oneway = (si+k)%2 == 0
+						r.oneCall(si, cc, nil)
+						if c.LoopGapUs > 0 {
+							time.Sleep(time.Duration(c.LoopGapUs) * time.Microsecond)
+						}
+					}
+					done <- struct{}{}
+					return
 				}
 				r.oneCall(si, c, done)
 			}(si, c)
